@@ -24,6 +24,7 @@ int  simfs_is_temp(const char *path);   /* the path names a live file created by
 void simfs_set_mkstemp_mode(int m);    /* 0600 (modern libc) or 0666 (historic: mode left to the umask) */
 
 /* name service table */
+void simfs_set_call_failures(int fdopen_k, int fchmod_k);
 void simns_reset(void);
 void simns_add_proto(const char *name, int number);
 void simns_add_serv(const char *name, const char *proto, int port);
